@@ -310,6 +310,41 @@ pub fn cases(tier: &str, seed: u64, focus: &str) -> Vec<RsCase> {
             w.extend(rand_vec(&mut rng, s.total()));
             out.push(RsCase { stratum: "randomWord", size: s, data: None, errs: vec![], recv: Some(w), correct: true });
         }
+        // (f) syndromes of a genuine u-error pattern with one structured perturbation (a single syndrome changed, or the
+        // tail rescaled = "restarted amplitude"): the decoder's consistency checks each cover only part of the vector
+        {
+            let reps = if thorough { 4 } else { 1 };
+            let npos = s.block_positions(0).len();
+            for u in [1usize, 2, t.saturating_sub(1).max(1), t] {
+                if u > t || u > npos {
+                    continue;
+                }
+                for kind in 0..8usize {
+                    for _ in 0..reps {
+                        // syndromes S_j = sum_i y_i X_i^j, j = 1..k, of u errors at distinct degrees
+                        let degs = choose(&mut rng, &(0..npos).collect::<Vec<_>>(), u);
+                        let ys: Vec<u8> = (0..u).map(|_| nz(&mut rng)).collect();
+                        let mut syn: Vec<u8> = (1..=k).map(|j| degs.iter().zip(ys.iter()).fold(0u8, |acc, (d, y)| acc ^ gf.mul(*y, gf.pow(j * d)))).collect();
+                        let delta = nz(&mut rng);
+                        let c = nz(&mut rng);
+                        match kind {
+                            0 => syn[0] ^= delta,
+                            1 => syn[k - 1] ^= delta,
+                            2 => syn[t.min(k - 1)] ^= delta,
+                            3 => syn[t.saturating_sub(1)] ^= delta,
+                            4 => { for x in syn.iter_mut().skip(t) { *x = gf.mul(*x, c); } }
+                            5 => { for x in syn.iter_mut().skip(t.saturating_sub(1)) { *x = gf.mul(*x, c); } }
+                            6 => { if k > 1 { syn[1] ^= delta; } }
+                            _ => { for x in syn.iter_mut().skip(u) { *x = gf.mul(*x, c); } }
+                        }
+                        if let Some(e) = gf.solve_syndromes(&syn) {
+                            let poly: Vec<u8> = e.iter().rev().copied().collect();
+                            out.push(RsCase { stratum: "perturbedSyndromes", size: s, data: Some(rand_vec(&mut rng, s.data)), errs: vec![], recv: Some(vec![0, 0, 0].into_iter().chain(poly.into_iter()).collect()), correct: true });
+                        }
+                    }
+                }
+            }
+        }
         // (e) C05: received words with a prescribed zero pattern of the syndrome vector of one block
         if c05 {
             let mut pats: Vec<Vec<bool>> = Vec::new(); // true = zero
